@@ -4,6 +4,8 @@
   intermediate value is an integer below 2^53 (trusted base, DESIGN §5.4).
 -/
 import Lemmas.OptimalBridge
+import Lemmas.OptimalOwn
+import Lemmas.OptimalOneLine
 import TextwrapModel.Wrap
 import Props.C06
 namespace TW.C03
@@ -97,6 +99,56 @@ theorem wrapAlg_optimal (mo : MinimaOracle Int) (p : Penalties) (words : List Wo
   unfold wrapAlg
   have hl : List.map (CostNum.ofNat (α := Int)) [a, b] = [(a : Int), (b : Int)] := rfl
   simp only [hl, h1]
+
+/-! ### 6. without the `smawk` contract: the model runs `smawk`'s own algorithm
+
+`TextwrapModel/Smawk.lean` models `smawk::online_column_minima` and `smawk_inner` of smawk
+0.3.2 and the closure `wrap_optimal_fit` passes to them. `Lemmas/SmawkMin.lean` proves that
+`smawk_inner` returns the left-most minimum of every column of a matrix that is totally
+monotone in the strict form; `Lemmas/SmawkOnline.lean` proves (invariant after Galil–Park /
+Eppstein) that `online_column_minima` returns true column minima of an online matrix
+`D i + c i j` that is totally monotone above the diagonal; `Lemmas/OptimalTM.lean` derives that
+monotonicity for textwrap's cost matrix from the chain structure of the finished columns alone;
+`Lemmas/OptimalOwn.lean` puts them together: under the property's hypotheses the rows the
+model's own `smawk` computes conform to the contract. The driver compares these rows with the
+rows the real `smawk` returned on every optimal-fit case. -/
+
+-- @audit TW.smawkInner_min
+-- @audit TW.onlineColumnMinima_min
+-- @audit TW.ownMinima_isMinimaRows
+-- @audit TW.wrapOptimalFit_eq_own
+
+/-- **optimal-fit returns a minimum-cost arrangement — no assumption about `smawk`**: for
+    non-negative integer fragments whose penalty width never exceeds the next width and at most
+    two line widths, the self-contained model of `wrap_optimal_fit` returns an arrangement whose
+    cost is at most that of every partition into non-empty lines (the first-fit one included),
+    for any penalties -/
+-- @audit TW.C03.optimal_own
+theorem optimal_own (pen : Penalties) (lws : List Int) (hl : lws.length ≤ 2) (frs : List IFrag)
+    (hn : frs ≠ []) (hf : FragHyp frs)
+    (p : List (List IFrag)) (hflat : p.flatten = frs) (hne : ∀ l ∈ p, l ≠ []) :
+    ∃ segs, (wrapOptimalFit (fun f => f) pen frs lws).1 =
+        .ok (segs.map fun q => (frs.drop q.1).take (q.2 - q.1)) ∧
+      arrCost pen lws frs 0 segs ≤ arrCost pen lws frs 0 (segsOf 0 p) := by
+  rw [wrapOptimalFit_eq_own]
+  simp only [List.map_id']
+  exact optimal_le_partition pen lws hl frs hn _
+    (ownMinima_isMinimaRows pen lws hl frs (hyp_of_frags pen lws frs hf)) p hflat hne
+
+/-- the same at the `wrap` level: with the built-in splitters (no inserted hyphens) the groups
+    reassembled into lines are a minimum-cost arrangement of the paragraph's fragments -/
+-- @audit TW.C03.wrapAlg_optimal_own
+theorem wrapAlg_optimal_own (p : Penalties) (words : List Word) (a b : Nat) (hw : words ≠ [])
+    (hnp : NoPen words) :
+    ∃ segs : List (Nat × Nat),
+      wrapAlg (ownMinima (α := Int) p) (.optimalFit p) words [a, b] =
+        some (segs.map fun q => (words.drop q.1).take (q.2 - q.1)) ∧
+      SegChain 0 segs words.length ∧
+      ∀ segs', SegChain 0 segs' words.length →
+        arrCost p [(a : Int), (b : Int)] (words.map fragOf) 0 segs ≤
+          arrCost p [(a : Int), (b : Int)] (words.map fragOf) 0 segs' :=
+  wrapAlg_optimal (ownMinima p) p words a b hw
+    (ownMinima_isMinimaRows p [(a : Int), (b : Int)] (by simp) (words.map fragOf) (hyp_words p _ words hnp))
 
 end TW.C03
 
